@@ -588,6 +588,23 @@ def p_mofProduction(p):
                      """
 
 
+def _cim_object(p, constructor, *args, **kwargs):
+    """
+    Create a CIM object or CIM value for the MOF element that is being
+    compiled, by calling the constructor function with the arguments.
+
+    The exceptions the CIM object constructors and cimvalue() raise for
+    values that are invalid or do not match the specified CIM type are
+    translated to MOFParseError.
+    """
+    try:
+        return constructor(*args, **kwargs)
+    except (ValueError, TypeError, OverflowError) as exc:
+        raise MOFParseError(
+            msg=_format("Invalid value or value/type mismatch: {0}", exc),
+            parser_token=p)
+
+
 def p_mp_createClass(p):
     """mp_createClass : classDeclaration
                       """
@@ -1146,8 +1163,9 @@ def p_qualifier(p):
         else:
             qval = qualdecl.value  # default value
     else:
-        qval = cimvalue(qval, qualdecl.type)
-    p[0] = CIMQualifier(qname, qval, type=qualdecl.type, **flavors)
+        qval = _cim_object(p, cimvalue, qval, qualdecl.type)
+    p[0] = _cim_object(p, CIMQualifier, qname, qval, type=qualdecl.type,
+                       **flavors)
 
     # Note: The propagated flag is not set because this is parsed MOF, which
     # contains specified qualifiers and not propagated qualifiers.
@@ -1206,7 +1224,7 @@ def p_propertyDeclaration_1(p):
 
 def p_propertyDeclaration_2(p):
     """propertyDeclaration_2 : dataType propertyName defaultValue ';'"""
-    p[0] = CIMProperty(p[2], p[3], type=p[1])
+    p[0] = _cim_object(p, CIMProperty, p[2], p[3], type=p[1])
 
 
 def p_propertyDeclaration_3(p):
@@ -1217,7 +1235,7 @@ def p_propertyDeclaration_3(p):
 
 def p_propertyDeclaration_4(p):
     """propertyDeclaration_4 : dataType propertyName array defaultValue ';'"""
-    p[0] = CIMProperty(p[2], p[4], type=p[1], is_array=True,
+    p[0] = _cim_object(p, CIMProperty, p[2], p[4], type=p[1], is_array=True,
                        array_size=p[3])
 
 
@@ -1231,7 +1249,8 @@ def p_propertyDeclaration_6(p):
     # pylint: disable=line-too-long
     """propertyDeclaration_6 : qualifierList dataType propertyName defaultValue ';'"""  # noqa: E501
     quals = OrderedDict([(x.name, x) for x in p[1]])
-    p[0] = CIMProperty(p[3], cimvalue(p[4], p[2]),
+    p[0] = _cim_object(p, CIMProperty, p[3],
+                       _cim_object(p, cimvalue, p[4], p[2]),
                        type=p[2], qualifiers=quals)
 
 
@@ -1246,7 +1265,8 @@ def p_propertyDeclaration_8(p):
     # pylint: disable=line-too-long
     """propertyDeclaration_8 : qualifierList dataType propertyName array defaultValue ';'"""  # noqa: E501
     quals = OrderedDict([(x.name, x) for x in p[1]])
-    p[0] = CIMProperty(p[3], cimvalue(p[5], p[2]),
+    p[0] = _cim_object(p, CIMProperty, p[3],
+                       _cim_object(p, cimvalue, p[5], p[2]),
                        type=p[2], qualifiers=quals, is_array=True,
                        array_size=p[4])
 
@@ -1272,7 +1292,7 @@ def p_referenceDeclaration(p):
         if len(p) == 5:
             dv = p[3]
     quals = OrderedDict([(x.name, x) for x in quals])
-    p[0] = CIMProperty(pname, dv, type='reference',
+    p[0] = _cim_object(p, CIMProperty, pname, dv, type='reference',
                        reference_class=cname, qualifiers=quals)
 
 
@@ -1594,7 +1614,8 @@ def p_qualifierDeclaration(p):
 
     flavors = _build_flavors(p, flist, None, qualname)
 
-    p[0] = CIMQualifierDeclaration(
+    p[0] = _cim_object(
+        p, CIMQualifierDeclaration,
         qualname, dt, value=value, is_array=is_array, array_size=array_size,
         scopes=scopes, **flavors)
 
@@ -1908,7 +1929,7 @@ def p_instanceDeclaration(p):
                             parser_token=p)
                 pprop.value = cimvalue(pval, cprop.type)
             inst.properties[pname] = pprop
-        except ValueError as ve:
+        except (ValueError, TypeError, OverflowError) as ve:
             raise MOFParseError(
                 msg=_format(
                     "Cannot compile instance of {0!A} because it specifies "
